@@ -14,7 +14,7 @@ func stateSetup(c *Ctx, rule string) (*Prog, *stateRoles) {
 
 func init() {
 	register("C18", &PropDef{
-		Explain: "Structural conditions of 'materialized state is the fold of the message log': (R1) exhaustive operation/control tables — every constant of type Operation has a case (insert, update → Store.Set; delete → Store.Delete) and every constant of type Control has one (reset → clear; snapshot markers → no store mutation); (R2) reset ranges over the whole collections map and clears each collection unconditionally; (R3/R4) all paths of Apply (with the single collection-applier implementation inlined): every nil return is preceded by exactly one store of the event's Offset to lastOffset, no error return is, and paths that change nothing (snapshot markers, unregistered types in non-strict mode) reach `return nil` without a store operation; (R5) one key function — Set, Delete and Get address the store with CompositeKey(type, key), and CompositeKey is the unconditional concatenation type + separator + key; values are decoded into fresh zero values; (R6) nothing in Apply's call tree reads lastOffset, so a step is a function of (collections, event) only and two sessions equal one. Not decided: last-writer-wins as values.",
+		Explain: "Structural conditions of 'materialized state is the fold of the message log': (R1) exhaustive operation/control tables — every constant of type Operation has a case (insert, update → Store.Set; delete → Store.Delete) and every constant of type Control has one (reset → clear; snapshot markers → no store mutation); (R2) reset ranges over the whole collections map and clears each collection unconditionally; (R3/R4) all paths of Apply (with the single collection-applier implementation inlined): every nil return is preceded by exactly one store of the event's Offset to lastOffset, no error return is, and paths that change nothing (snapshot markers, unregistered types in non-strict mode) reach `return nil` without a store operation; (R5) one key function — Set, Delete and Get address the store with CompositeKey(type, key), and CompositeKey is the unconditional concatenation type + separator + key; values are decoded into fresh zero values; (R6) nothing in Apply's call tree reads lastOffset, so a step is a function of (collections, event) only and two sessions equal one. Not decided: last-writer-wins as values. R1 is decided by evaluating the appliers for every operation/control constant and an unknown one.",
 		Run: func(c *Ctx) {
 			c.Rule("C18.R1", "exhaustive operation and control tables with the right store effect")
 			c.Rule("C18.R2", "reset clears every collection unconditionally")
@@ -40,7 +40,7 @@ func init() {
 		},
 	})
 	register("C19", &PropDef{
-		Explain: "Structural conditions of 'state messages survive the round trip; bad input is rejected without damage': (R1) decode before mutate — on every path of Apply that returns a non-nil error no Set/Delete/Clear, no store to lastOffset and no write of the collections map occurred (all paths, collection applier inlined), and every decode target is a fresh zero value of that call; (R2) wire names — the JSON tags type/key/value/old_value/headers/operation/txid/timestamp/control/offset, the string values of the Operation and Control constants, the fixed event type names, and the discriminator in Apply reading the same `headers` member the messages write; (R3) panic-free on arbitrary bytes — Apply's static call tree contains no unchecked type assertion, no index/slice of input-derived data, no integer division, no explicit panic and no dereference of a pointer decoded from the input (encoding/json, user UnmarshalJSON methods and user Store implementations are trusted); (R4) the constructors fill Value/OldValue from json.Marshal of their arguments, the key and operation from their arguments, the entity type from EntityType or the override, and reject the empty key. Not decided: JSON fidelity for all values.",
+		Explain: "Structural conditions of 'state messages survive the round trip; bad input is rejected without damage': (R1) decode before mutate — on every path of Apply that returns a non-nil error no Set/Delete/Clear, no store to lastOffset and no write of the collections map occurred (all paths, collection applier inlined), and every decode target is a fresh zero value of that call; (R2) wire names — the JSON tags type/key/value/old_value/headers/operation/txid/timestamp/control/offset, the string values of the Operation and Control constants, the fixed event type names, and the discriminator in Apply reading the same `headers` member the messages write; (R3) panic-free on arbitrary bytes — Apply's static call tree contains no unchecked type assertion, no index/slice of input-derived data, no integer division, no explicit panic and no dereference of a pointer decoded from the input (encoding/json, user UnmarshalJSON methods and user Store implementations are trusted); (R4) the constructors fill Value/OldValue from json.Marshal of their arguments, the key and operation from their arguments, the entity type from EntityType or the override, and reject the empty key. Not decided: JSON fidelity for all values. R1 also covers the bundled stores' read loops (fresh decode targets); R4 requires the constructor to marshal through the *T argument the materializer decodes through.",
 		Run: func(c *Ctx) {
 			c.Rule("C19.R1", "decode before mutate: error returns leave collections and LastOffset untouched; fresh decode targets")
 			c.Rule("C19.R2", "wire names and values of the state protocol; discriminator agrees with the writer")
